@@ -45,7 +45,8 @@ def ledger_run(recs, ifh=0):
             for a, b in r['reqs']: forget(a, b)
         elif o in ('readdir', 'readdirplus'):
             for e in r['ents']:
-                if r['plus'] and e['del']: give(e['ino'])
+                # a listing that ends in an error delivers nothing: the client sees the errno, not the entries
+                if r['plus'] and e['del'] and r['res'] == 0: give(e['ino'])
                 if e.get('host') and bad is None: bad = bind(e['ino'], e['host'], k)
         elif o == 'destroy':
             led = {1: 2}; num_of = {}; host_of = {}
@@ -106,7 +107,9 @@ def run_check(tier, seed):
     ev.assumptions = ['single mount under the exported directory', 'sequential request processing (interleavings: C09)',
                       'handle mode + use_host_ino: the host does not reuse the inode number of a file that is still referenced (stated as a hypothesis in the theorems)']
     findings, broken = [], []
+    import pure_tie; pure_tie.prepare(PROP, ev, broken)      # Gen/RustPure.v from the function bodies in REPO (PROP_src_* theorems)
     audit = std_audit(ev, PROP, broken)
+    pure_tie.after_audit(PROP, broken)                         # a source tie broke: look for a concrete differing input
     ok, out, bindir = cargo_build(['ptables'])
     if not ok:
         broken.append({'kind': 'harness-build', 'log': out[-3000:]})
@@ -121,6 +124,16 @@ def run_check(tier, seed):
             'lookup 6 1 a', 'forget 6 18446744073709551615', 'lookup 7 4 c', 'unlink 1 a', 'rename 1 b 4 zz', 'lookup 8 4 zz',
             'opendir 0 1', 'readdirplus 1 0 4096 0 1', 'readdir 1 0 4096 0 100', 'readdirplus 1 0 4096 0 100', 'releasedir 1 0',
             'forget 0 3', 'bforget 7:1 8:1 7:9', 'lookup 9 4 c', 'create 10 1 0 p 0']})
+    # descriptor exhaustion in the middle of a listing (audit 6): RLIMIT_NOFILE lowered for the one request so that the
+    # lookup of the 3rd / 2nd / 1st entry of the root directory cannot get its descriptor.  Whatever the reply (the entries
+    # collected so far, or the error when nothing was collected), readdirplus holds references for exactly the entries the
+    # client received.  Descriptor modes (each new inode keeps its descriptor); handle modes as control.
+    for mode in P.MODES4:
+        for no_opendir in (0, 1):
+            cases.append({'mode': mode, 'no_open': 0, 'no_opendir': no_opendir, 'lines': [
+                'opendir 0 0', 'fail 3 readdirplus 0 0 4096 0 100', 'fail 2 readdirplus 0 0 4096 0 100', 'fail 1 readdirplus 0 0 4096 0 100',
+                'fail 4 readdir 0 0 4096 0 100', 'fail 2 readdir 0 0 4096 0 100', 'readdirplus 0 0 4096 0 2', 'fail 5 readdirplus 0 0 4096 last 100',
+                'releasedir 0 0', 'bforgetall plain']})
     # host inode-number recycling: the client keeps a reference to a file that is unlinked; the host gives its inode
     # number to a new file (ext4 does when no descriptor pins the inode: handle modes); the new file must get its own
     # number and survive the forget of the old one.  Four shapes of the old file; fd mode as control (no recycling).
